@@ -443,10 +443,13 @@ impl VersionSet {
         self.curr_wal_number = maybe_curr_wal_num.unwrap();
         self.prev_wal_number = maybe_prev_wal_num;
 
+        // A manifest whose tail holds an incomplete record (e.g. a torn write) cannot be appended to
+        let is_manifest_tail_clean = manifest_reader.is_at_clean_end().unwrap_or(false);
+
         // Drop the manifest reader (and therefore the underlying file handle) before attempting to
         // reuse the existing manifest file
         drop(manifest_reader);
-        if self.maybe_reuse_manifest(&manifest_file_path) {
+        if is_manifest_tail_clean && self.maybe_reuse_manifest(&manifest_file_path) {
             return Ok(true);
         }
 
